@@ -102,6 +102,42 @@ CHECKS = {
    note="Trusted: Lean kernel, standard axioms, harness. Partial: hash seed, import order, class-level / module-level state and SLY's table construction are runtime facts, "
         "covered by execution only; the LR driver is abstracted to 'runs from the reset configuration'.",
    design="§6 C20", technique="Lean 4 proof (induction over schedules / histories of an explicit instance state machine) + differential histories + fresh-process reference + subprocess digests"),
+ "C07": dict(
+   text="Lean 4 theorem `C07.lex_pieces`: for every dialect, alias and filter whose literal texts have the lexer's shapes, the characters the model of the three "
+        "SQL visitors emits are read back by an independent SQL tokeniser (Mealy machine written from the SQL lexical rules; rejects comments, ';', stray "
+        "characters, unterminated literals) as exactly the tokens of the emitted pieces - every filter string inside ONE string-literal token, every field inside "
+        "ONE quoted identifier, whatever they contain (str_token_any_content, like_literal_one_token, qid_token_any_name; 1400 lines of character-level "
+        "lemmas, mutual induction over the AST and a case analysis of every function template). `noninterference` (Props/C07Shape.lean when present): filters "
+        "with the same skeleton emit pieces of identical shape. The model's text is compared character by character with the three real visitors on every "
+        "syntactic position of a string literal x 26 hostile contents x dialect x alias; the REAL text is then tokenised by the Lean tokeniser and its token "
+        "shape compared with the same filter holding a benign content; field spellings likewise.",
+   note="Trusted: Lean kernel, standard axioms, Spec/SqlLex.lean (the independent tokeniser), harness. Hypothesis litOk (number / date / GUID texts, names without '\"') is what the "
+        "lexer guarantees (C06) and is a decidable predicate with non-vacuity examples. One known finding (the ESCAPE clause appears only for literals containing a wildcard) has Lean "
+        "witnesses. fix: 329d7a6 (quotes in LIKE patterns), fae5465, a628179. The table alias is caller-supplied and trusted.",
+   design="§6 C07", technique="Lean 4 proof (character-level lexing of the emitted text by induction over the AST + template case analysis) + tie theorems on the handler matrix + exhaustive differential correspondence + independent tokenisation of the real output"),
+ "C09": dict(
+   text="Lean 4: string-exact model of the three SQL visitors as function templates + precedence-driven parenthesisation; an independent SQL expression parser "
+        "(standard precedence; comparison chains and ||/arithmetic mixes rejected because the dialects disagree on them) and the expected tree Spec.mirror (per-dialect "
+        "spelling of every OData built-in, typed in from the SQL documentation). Theorems: alias_only_fields (rendering with alias a IS rendering without alias with every "
+        "column piece qualified - every dialect, every filter, including raising ones), parse_mirror (Props/C09Parse.lean when present: the emitted tokens parse to "
+        "Spec.mirror for every sqlSafe filter). Executed on every run: exact text vs the model for every operator x operator nesting in both operand positions, string "
+        "positions, field spellings and seeded typed filters x 3 dialects x alias none/'t'/'u' with visitors of different aliases interleaved; the REAL text is read by the "
+        "Lean SQL lexer+parser and compared with Spec.mirror.",
+   note="Trusted: Lean kernel, standard axioms, Spec/SqlLex+SqlParse+SqlMirror (independent reader and expected trees), harness. Side condition Spec.sqlSafe holds for every filter of the typed "
+        "grammar (checked each run). Known finding: the standard dialect's floor/ceiling CASE templates are not SQL (pinned by the suite; Lean witness kf_std_floor). "
+        "fix: a701528 c4949ac 3f9b06a.",
+   design="§6 C09", technique="Lean 4 proof (piece homomorphism by mutual induction; precedence-climbing round trip) + tie theorems + exhaustive differential correspondence + independent parsing of the real output"),
+ "C12": dict(
+   text="Lean 4 theorem `C12.sql_never_leaks`: for every dialect, alias and every tree whose built-in calls have the argument counts the parser enforces (callsOk, from the "
+        "OData table; the finite arity table is checked against the handlers' signatures by the kernel) and whose duration literals unpack, the model of the raw SQL visitors "
+        "returns SQL or one of the library's exceptions - never AttributeError/TypeError/IndexError/ValueError/NotImplementedError; namespaced calls never reach a handler "
+        "(not_handler_of_ns). Completeness of a successful SQL translation is C09's parse_mirror. Executed: the node-kind x operand-position matrix and every built-in x "
+        "argument kind x position, for the three SQL dialects and the roundtrip printer against the model (outcome class, payload, text), and for Django / SQLAlchemy ORM / "
+        "Core on the strictly well-typed subset plus relational filters with unknown fields at every depth and same-named relationships on different models.",
+   note="Trusted: Lean kernel, standard axioms, Spec/TypesStrict.lean, harness. Partial: the ORM backends' outcome classes are observed on the real code only (Django's and "
+        "SQLAlchemy's internals are not modelled); a refusal raised by the host ORM itself (Django FieldError) is counted as a refusal. Nine leaks were repaired first "
+        "(fix: b3ff485 c4949ac 0ae8f2a a3e3835 2c1d307 aff910a a628179 4813a75 3d0299d e93080a 235cac7).",
+   design="§6 C12", technique="Lean 4 proof (never-foreign by mutual induction + kernel-checked arity table) + tie theorems on handler matrix and exception tree + exhaustive differential correspondence + outcome classification on all seven backends"),
 }
 NOT_APPLICABLE = {}
 
